@@ -85,8 +85,7 @@ from .ast import (
 )
 
 def quote(s):
-    assert s.replace('_', '').replace('.', '').replace('/', '').isalnum(), \
-        'Only use quote() with names or IDs in Stone.'
+    # Also used for the text of doc references, which is arbitrary.
     return "'%s'" % s
 
 def parse_data_types_from_doc_ref(api, doc, namespace_context, ignore_missing_entries=False):
